@@ -294,7 +294,8 @@ def run_family(run, exe, prop, configs, parallel=5, workers=3, env=None, cap_tou
     def one(item):
         name, conf = item
         conf = with_variants(conf, exe)
-        return name, conf, run_config(run, exe_bin if conf.get("Binary") else exe, name, conf, [], workers=workers, prop=prop, env=env, cap_tours=cap_tours, simulate=conf.get("_sim"))
+        env1 = dict(env or {}, **conf["_env"]) if conf.get("_env") else env
+        return name, conf, run_config(run, exe_bin if conf.get("Binary") else exe, name, conf, [], workers=workers, prop=prop, env=env1, cap_tours=cap_tours, simulate=conf.get("_sim"))
     results = []
     with cf.ThreadPoolExecutor(parallel) as ex:
         for r in ex.map(one, configs):
